@@ -226,6 +226,7 @@ type Sink struct {
 	// fault injection
 	FailAt    int  // index of the Write to fail; -1 = never
 	Short     bool // fail with a short count + io.ErrShortWrite instead of 0 bytes + error
+	ShortNil  bool // accept half of the bytes and return the short count with a nil error (a destination that breaks the io.Writer contract the way io.Copy and bufio guard against)
 	Full      bool // accept every byte of the failing write and still report an error (a destination that reports a deferred failure)
 	Sticky    bool // all later writes fail too
 	Fired     bool
@@ -252,6 +253,11 @@ func (s *Sink) Write(p []byte) (int, error) {
 		if s.Full {
 			s.Buf.Write(p)
 			return len(p), ErrInjected
+		}
+		if s.ShortNil && len(p) > 0 {
+			n := len(p) / 2
+			s.Buf.Write(p[:n])
+			return n, nil
 		}
 		if s.Short && len(p) > 0 {
 			n := len(p) / 2
